@@ -55,11 +55,11 @@ def finite_difference(lib, call, h):
 
 def check_case(case):
     prog, call = case["prog"], case["call"]
-    if call is None:
-        raise Reject()
-    lib, err = gb.build(prog)
+    lib, err = bt.build(gb, prog)
     if lib is None:
         return Result(False, "C42.harness.build", "program does not build: " + err)
+    if call is None:
+        raise Reject()
     kind = prog["kind"] if prog["kind"] != "repo" else "repo." + prog["name"]
     hyp = call["hyp"]
     classes = ["kind." + kind, "hyp." + hyp] + (["algo." + prog["algo"]] if "algo" in prog else [])
@@ -106,6 +106,15 @@ def check_case(case):
         raise Reject()
     err = amax(K - fd2)
     tol = TOL_REL * kn + 50 * delta
+    if not err <= tol and prog["kind"] == "hooke_default" and hyp == "AxisymmetricalGeneralisedPlaneStress":
+        # known class (same root cause as C41.hooke_default.hooke.agps_altered_stiffness): the `altered' stiffness of
+        # this hypothesis is condensed on component 2 instead of the axial component 1
+        n = bt.SSIZE[hyp]
+        wrong = bt.plane_stress_stiffness(call["mat"]["young"], call["mat"]["nu"], n, 2)
+        if amax(K - wrong) <= 1e-12 * kn:
+            return Result(False, "C42.hooke_default.elastic.agps_altered_stiffness",
+                          "AxisymmetricalGeneralisedPlaneStress: K=%r is the stiffness condensed on the hoop component; "
+                          "derivative of the returned stress (axial stress imposed): %r" % (K.tolist(), fd2.tolist()), classes=classes)
     errs = {"%s.%s/tol" % (kind.split(".")[0], "inelastic" if inelastic else "elastic"): err / tol,
             "richardson.delta/|K|": delta / kn}
     if not err <= tol:
@@ -145,14 +154,15 @@ def main():
                 entry = bt.REPO_BEHAVIOURS[(SEED * 3 + i) % len(bt.REPO_BEHAVIOURS)]
                 hyps = entry["hyps"]
                 first = hyps[(SEED + i) % len(hyps)]
-                sel = sorted({first, rng.choice(hyps)}, key=hyps.index)
+                # hypothesis specific declarations of the file must keep their hypothesis
+                sel = sorted({first, rng.choice(hyps)} | set(entry.get("needs", [])), key=hyps.index)
                 p = bt.repo_program(REPO, entry, sel)
             else:
                 p = tangent_description(rng, kind, SEED * 3 + i)
                 p["name"] = "%sT%d" % (p["name"], SEED % 100000)
                 p = bt.make_program(p)
             progs.append((p, max(5, int(cases * share / k))))
-    built = parallel_map(lambda pc: gb.build(pc[0]), progs, jobs=min(JOBS, 16))
+    built = parallel_map(lambda pc: bt.build(gb, pc[0]), progs, jobs=min(JOBS, 16))
     for (p, ncases), (lib, err) in zip(progs, built):
         if lib is None:
             u.fail(p["kind"], "C42.harness.build", "program rejected by mfront/g++: " + err, {"prog": p, "call": None})
